@@ -28,8 +28,22 @@ RULE = (
     'file handle); headers: default header x units x coordinate names, the fixed header list, and every ASCII character '
     '0..127 in the templates "a<c>b", "<c>", "a<c>1 2 3"; coordinate sets: 1..5 coords x dimension-coordinate present or '
     'not x explicit coord=each name or deduced x memory layout; refusal family: every compatible combination of one or '
-    'two of 7 defects x explicit/deduced coord x rows 1/3 x target.  A case is non-trivial when a file is written and '
-    'loaded back or a refusal is demanded; distinct = distinct configuration hashes'
+    'two of 7 defects x explicit/deduced coord x rows 1/3 x target.  Thorough tier in addition: (1) the full product of a '
+    '119-value x 83-variance alphabet (signed zeros, subnormal/normal boundary, extremes, 1 +- ulp, decimal classics, powers of '
+    'ten; exact and inexact square roots) at every row position of 1..4-row tables x 12 targets; (2) bit-pattern families: '
+    'every power of two 2^-1074..2^1023 with both neighbours and both signs, 120 000 numbers each with 15 / 16 / 17 significant '
+    'decimal digits and with a 17-digit shortest repr, 7 000 exact and 8 436 inexact square roots, a mantissa walk over '
+    'every 4th exponent; (3) all-distinct tables of 1e4 and 1e5 rows (4 bit-mixing sequences) x 12 targets; (4) headers: every '
+    'string of length 0..5 over {#, space, LF, CR, 1, a} for all targets, 0..6 for six targets, 0..7 for a str path; every '
+    'control character 0x01..0x1f, 0x7f alone and in ordered pairs in 5 templates (and in the coordinate name of the default '
+    'header); headers up to 1e6 characters / 20 000 lines, leading/trailing newlines, CR / CRLF / mixed breaks, # at every '
+    'position, numeric-looking lines with 1..5 columns after every break character; (5) coordinate sets with 1/2/4 rows on '
+    'all 12 targets and float32 / int64 / int32 coordinates; (6) histories on one target: 2 or 12 overwrites with other data '
+    'of identical byte size, natural / identical / older mtime, each state loaded twice with the first result scribbled '
+    'over, and a longer file replaced by a shorter one; (7) the refusal family on all 12 targets.  Targets: StringIO, str '
+    'path, Path, handles opened w / a / x / w+ (w+ read back through the same handle), paths ending .gz .bz2 .xz, without '
+    'suffix, with several dots.  A case is non-trivial when a file is written and loaded back or a refusal is demanded; '
+    'distinct = distinct configuration hashes'
 )
 ASSUMPTIONS = [
     'numpy text formatting/parsing (np.savetxt / np.loadtxt) and scipp are the trusted base',
@@ -37,12 +51,20 @@ ASSUMPTIONS = [
     'files are read back the way load_xye reads them (text mode, universal newlines for paths and plain open(); StringIO without translation)',
     '"a few units in the last place" = 4 ulp measured on the bit pattern',
     'refused = any exception and nothing written to the target',
+    'thorough: paths ending .gz/.bz2/.xz are compressed by numpy on both sides (text checks skipped there); file handles '
+    'only in modes that start from an empty file (w, a on a new file, x, w+); float32/int coordinates must come back as '
+    'exactly the number they hold; time stamps of the file are set with os.utime in the overwrite histories (content, not '
+    'mtime, decides what a load returns)',
 ]
 BOUND = {
     'quick': 'all 11x11x10 one-row triples; 2/3-row windows; 1000 rows; 9 fixed + 384 ASCII-template headers; 1..5 coords; all 1- and 2-defect refusals',
-    'thorough': 'same plus 10000 rows and ASCII templates at 3 rows for every target',
+    'thorough': 'quick bound plus: 119x83 value/variance product at every position of 1..4 rows x 12 targets (1.19e6 round trips); '
+                '6 294 powers of two +- 1 ulp, 4 x 120 000 decimal-digit numbers, 15 436 square-root cases, 18 432 mantissa patterns; '
+                '1e4- and 1e5-row all-distinct tables; all header strings up to length 5/6/7 over a 6-letter alphabet, 32 control '
+                'characters singly and in all 1 024 ordered pairs x 5 templates, headers up to 1e6 characters; 1..5 coords x rows 1/2/4 x '
+                '12 targets x 3 extra coordinate dtypes; overwrite / reload histories up to 12 rounds; refusals on 12 targets',
 }
-REQUIRED_CLASSES = [
+_REQUIRED_QUICK = [
     'roundtrip_ok', 'rows_1', 'rows_2_3', 'rows_long', 'target_sio', 'target_path_str', 'target_path_obj', 'target_fh',
     'var_exact', 'var_off_by_ulps', 'value_subnormal', 'value_negzero', 'value_extreme',
     'header_default', 'header_empty', 'header_multiline', 'header_hash', 'header_numeric_looking',
@@ -50,6 +72,17 @@ REQUIRED_CLASSES = [
     'refused_novar', 'refused_edges', 'refused_mask', 'refused_ndim0', 'refused_ndim2', 'refused_nocoord',
     'layout_strided', 'layout_slice',
 ]
+REQUIRED_CLASSES = {
+    'quick': _REQUIRED_QUICK,
+    'thorough': [
+        *_REQUIRED_QUICK, 'rows_4', 'position_first', 'position_middle', 'position_last', 'rows_10000', 'rows_100000',
+        'bits_pow2', 'bits_dec15', 'bits_dec16', 'bits_dec17', 'bits_repr17', 'bits_sqrt_exact', 'bits_sqrt_inexact', 'bits_mantissa_walk',
+        'header_control_char', 'header_cr', 'header_very_long', 'ctrl_pair_via_header', 'ctrl_pair_via_coord_name',
+        'header_numeric_columns_1', 'header_numeric_columns_5', 'target_fh_a', 'target_fh_x', 'target_fh_wplus', 'target_path_gz',
+        'target_path_bz2', 'target_path_xz', 'target_path_nosuffix', 'coord_dtype_float32', 'coord_dtype_int64', 'coord_dtype_int32',
+        'overwrite_natural', 'overwrite_same_mtime', 'overwrite_older_mtime', 'overwrite_longer_file', 'loaded_twice',
+    ],
+}
 
 F64_MAX = 1.7976931348623157e308
 VALUES = [0.1, -0.1, 1 / 3, 5e-324, 2.2e-308, 1.797e308, 1e-5, -1.5, 0.0, -0.0, -F64_MAX]  # 11
@@ -66,6 +99,7 @@ INCOMPATIBLE = {
     for p in [('ndim0', 'ndim2'), ('ndim0', 'edges'), ('nocoord', 'edges'), ('nocoord', 'ambiguous')]
 }
 ULP_TOL = 4
+CHUNK = 6  # cases per work item: thorough cases are coarse (hundreds of round trips each)
 
 
 def cases(tier):
@@ -115,6 +149,8 @@ def cases(tier):
             for n in (1, 3):
                 for tgt in ('sio', 'path_str', 'fh'):
                     out.append({'kind': 'refusal', 'defects': list(combo), 'explicit': explicit, 'rows': n, 'target': tgt})
+    if tier == 'thorough':
+        out.extend(_thorough_cases())
     return out
 
 
@@ -140,33 +176,49 @@ def ulp_distance(a: float, b: float) -> int:
 class Target:
     """One way of handing a destination to save_xye / a source to load_xye."""
 
+    SUFFIX = {'path_gz': '.gz', 'path_bz2': '.bz2', 'path_xz': '.xz', 'path_nosuffix': '', 'path_dots': '.v1.2.dat'}
+
     def __init__(self, kind, tmpdir):
         self.kind = kind
-        self.path = os.path.join(tmpdir, 'f.xye')
+        self.path = os.path.join(tmpdir, 'f' + self.SUFFIX.get(kind, '.xye'))
         self.sio = None
+        self.handle = None
+        self.compressed = kind in ('path_gz', 'path_bz2', 'path_xz')
 
     def save(self, da, **kw):
         if self.kind == 'sio':
             self.sio = StringIO()
             save_xye(self.sio, da, **kw)
-        elif self.kind == 'path_str':
-            save_xye(self.path, da, **kw)
         elif self.kind == 'path_obj':
             save_xye(Path(self.path), da, **kw)
+        elif self.kind.startswith('path_'):
+            save_xye(self.path, da, **kw)
+        elif self.kind == 'fh_wplus':
+            self._close()
+            self.handle = open(self.path, 'w+')  # noqa: SIM115 - kept open: loaded back through the same handle
+            save_xye(self.handle, da, **kw)
         else:
-            with open(self.path, 'w') as f:
+            with open(self.path, {'fh': 'w', 'fh_a': 'a', 'fh_x': 'x'}[self.kind]) as f:
                 save_xye(f, da, **kw)
 
     def load(self, **kw):
         if self.kind == 'sio':
             self.sio.seek(0)
             return load_xye(self.sio, **kw)
-        if self.kind == 'path_str':
-            return load_xye(self.path, **kw)
         if self.kind == 'path_obj':
             return load_xye(Path(self.path), **kw)
+        if self.kind.startswith('path_'):
+            return load_xye(self.path, **kw)
+        if self.kind == 'fh_wplus':
+            self.handle.seek(0)
+            return load_xye(self.handle, **kw)
         with open(self.path) as f:
             return load_xye(f, **kw)
+
+    def _close(self):
+        if self.handle is not None:
+            self.handle.close()
+            self.handle = None
 
     def raw_text(self):
         """Characters written, without newline translation."""
@@ -174,6 +226,8 @@ class Target:
             return self.sio.getvalue() if self.sio is not None else ''
         if not os.path.exists(self.path):
             return None
+        if self.handle is not None:
+            self.handle.flush()
         with open(self.path, newline='', encoding='utf-8') as f:
             return f.read()
 
@@ -182,6 +236,8 @@ class Target:
         if self.kind == 'sio':
             text = self.sio.getvalue()
         else:
+            if self.handle is not None:
+                self.handle.flush()
             with open(self.path, encoding='utf-8') as f:  # universal newlines, like np.loadtxt on a path
                 text = f.read()
         ls = text.split('\n')
@@ -192,12 +248,15 @@ class Target:
     def nothing_written(self):
         if self.kind == 'sio':
             return self.sio is None or self.sio.getvalue() == ''
-        if self.kind == 'fh':
+        if self.kind.startswith('fh'):
+            if self.handle is not None:
+                self.handle.flush()
             return (not os.path.exists(self.path)) or os.path.getsize(self.path) == 0
         return not os.path.exists(self.path)
 
     def reset(self):
         self.sio = None
+        self._close()
         if os.path.exists(self.path):
             os.remove(self.path)
 
@@ -226,7 +285,7 @@ def judge_roundtrip(rec, case, tgt, da, xs, ys, es, *, header_kw, coord_kw=None,
         rec.evals += 1
         return False
     ok = True
-    if check_text:
+    if check_text and not tgt.compressed:
         lines = tgt.lines()
         data_idx = [i for i, ln in enumerate(lines) if not ln.startswith('#')]
         if data_idx != list(range(len(lines) - n, len(lines))):
@@ -313,9 +372,11 @@ def _value_classes(rec, ys):
 
 def run_case(case, rec):
     tmp = tempfile.mkdtemp(prefix='verif-c15-')
+    tgt = Target(case['target'], tmp)
     try:
-        _run(case, rec, Target(case['target'], tmp))
+        _run(case, rec, tgt)
     finally:
+        tgt._close()
         shutil.rmtree(tmp, ignore_errors=True)
 
 
@@ -372,6 +433,8 @@ def _run(case, rec, tgt):
         _run_coords(case, rec, tgt)
     elif kind == 'refusal':
         _run_refusal(case, rec, tgt)
+    elif kind in THOROUGH_RUNNERS:
+        THOROUGH_RUNNERS[kind](case, rec, tgt)
     else:
         raise ValueError(kind)
 
@@ -399,10 +462,22 @@ def _run_coords(case, rec, tgt):
     k, dimcoord, explicit = case['n_coords'], case['dimcoord'], case['explicit']
     names = _coord_names(k, dimcoord)
     ys, es = VALUES[:n], VARS[3 : 3 + n]
-    table = {name: [COORDS[(3 * j + i) % len(COORDS)] + j for i in range(n)] for j, name in enumerate(names)}
+    cdtype = case.get('coord_dtype', 'float64')
+    if cdtype == 'float64':
+        table = {name: [COORDS[(3 * j + i) % len(COORDS)] + j for i in range(n)] for j, name in enumerate(names)}
+    else:
+        # other coordinate dtypes: the file must hold exactly the number the coordinate holds (as float64)
+        src = INT_COORDS if cdtype.startswith('int') else F32_COORDS
+        table = {name: [float(np.dtype(cdtype).type(src[(3 * j + i) % len(src)])) for i in range(n)] for j, name in enumerate(names)}
+        rec.cls('coord_dtype_' + cdtype)
     da = make_da(table[names[0]], ys, es, coord_name=names[0])
     for name in names[1:]:
         da.coords[name] = sc.array(dims=['x'], values=np.asarray(table[name]), unit='one')
+    if cdtype != 'float64':
+        for name in names:
+            da.coords[name] = da.coords[name].to(dtype=cdtype, copy=True)
+            if [float(v) for v in da.coords[name].values] != table[name]:
+                raise RuntimeError('harness: coordinate values not representable in ' + cdtype)
     da = _layout(da, case['layout'])
     if set(da.coords.keys()) != set(names):
         raise RuntimeError('harness: layout changed the coordinate set')
@@ -475,3 +550,468 @@ def _run_refusal(case, rec, tgt):
     assert da.ndim == (0 if 'ndim0' in defects else 2 if 'ndim2' in defects else 1)  # noqa: S101
     rec.nontrivial += 1
     _expect_refusal(rec, tgt, da, kw, defects)
+
+
+# =========================================================================================
+# thorough tier only: deeper alphabets (the quick tier above is unchanged)
+
+F64_MIN_NORMAL = 2.2250738585072014e-308
+EPS = 2.0**-52
+ALL_TARGETS = ('sio', 'path_str', 'path_obj', 'fh', 'fh_a', 'fh_x', 'fh_wplus', 'path_gz', 'path_bz2', 'path_xz', 'path_nosuffix', 'path_dots')
+INT_COORDS = [0, 1, -1, 7, -12345, 2**31 - 1, -(2**31), 1000000, 255, -256, 65536]
+F32_COORDS = [0.0, 1.0, -2.5, 0.1, 1 / 3, 1e-5, 3.4028234663852886e38, 1.401298464324817e-45, -0.0, 16777216.0, 1e10]
+
+# values: signed zeros, subnormal / normal boundaries, extremes, 1 +- ulp, decimal classics that need 17 digits or are hard
+# to parse, integers around 2^53
+VALUES_X = [
+    0.0, -0.0, 5e-324, -5e-324, 1e-323, 2.225073858507201e-308, F64_MIN_NORMAL, -F64_MIN_NORMAL, 2.2250738585072011e-308,
+    F64_MAX, -F64_MAX, 1.7976931348623155e308, 1e308, 1.0, -1.0, 1.0 + EPS, 1.0 - EPS / 2, 2.0, 0.5, 0.1, 0.2, 0.3,
+    0.30000000000000004, 1 / 3, 2 / 3, -1 / 3, 3.141592653589793, 2.718281828459045, 1e-5, 1e5, 123456.789, 1e15, 1e16, 1e17,
+    9007199254740992.0, 9007199254740994.0, 9007199254740991.0, 4.35, 2.675, 1.005, 5e-310, 1e-320, 9.999999999999999e22,
+    1e23, 8.41e21, 8.5e-318, 1e-300, 1e300, 1.7e-162, 1.3407807929942596e154, 4.450147717014403e-308, 6.02214076e23,
+    1.602176634e-19, -1.5, 1e22, 1e21, 123456789012345678.0, 0.001, 100.0, 7.0, -7.000000000000001, 1.1, 5e-5,
+]
+# variances: perfect squares (root exact), non-squares, subnormal, boundaries, extremes
+VARS_X = [
+    0.0, 5e-324, 1e-323, 2.5e-323, 1e-310, 2.225073858507201e-308, F64_MIN_NORMAL, 4.450147717014403e-308, 1e-300, 1e-200, 1e-20,
+    1e-5, 0.1, 0.25, 0.3, 1.0 - EPS / 2, 1.0, 1.0 + EPS, 2.0, 2.25, 3.0, 4.0, 5.0, 9.0, 12345.0, 1e10, 15241578750190521.0,
+    1e200, 1e300, 2.25e300, 1e308, 1.7976931348623155e308, F64_MAX, 2.0**-1022, 2.0**-1021, 2.0**1023, 2.0**1022, 6.25e-2,
+    7.0, 1e-323 * 3,
+]
+# programmatic additions: powers of ten over the whole range, 1 + 2^-j, tenths, small primes and half-integer squares
+VALUES_X += [float('1e%d' % k) * sgn for k, sgn in zip(range(-320, 309, 17), itertools.cycle((1, -1)))]
+VALUES_X += [1.0 + 2.0**-j for j in range(1, 53, 6)] + [k / 10 for k in range(4, 10)] + [-(2.0**k) * (1 - EPS) for k in (-1074 + 53, -1022, -1, 0, 1, 52, 53, 1023)]
+VARS_X += [float(k) for k in (6, 8, 10, 11, 13, 16, 17, 19, 25, 100, 1000)] + [float('1e%d' % k) for k in range(-320, 301, 31)]
+VARS_X += [(k + 0.5) ** 2 for k in range(0, 12)] + [1.0 - 2.0**-j for j in (2, 10, 30, 52)]
+VALUES_X = list({bits(v): v for v in VALUES_X}.values())  # distinct bit patterns, first occurrence order
+VARS_X = list({bits(v): v for v in VARS_X}.values())
+H6 = ('#', ' ', '\n', '\r', '1', 'a')
+CTRL = [chr(c) for c in range(1, 32)] + ['\x7f']
+NUMERIC_LINES = ['1', '1 2', '1 2 3', '1 2 3 4', '1 2 3 4 5', '1e5 -2.5 .5', '1,2,3', ' 1 2 3', '1 2 3 ', 'nan nan nan', 'inf 1 1', '0x10 1 1']
+
+
+def _thorough_cases():
+    out = []
+    # (1) full value x variance product at every row position of 1..4-row tables
+    for tgt in ALL_TARGETS:
+        for n in (1, 2, 3, 4):
+            for pos in range(n):
+                for vi in range(0, len(VALUES_X), 8):
+                    out.append({'kind': 'product', 'target': tgt, 'rows': n, 'pos': pos, 'v0': vi, 'v1': min(vi + 8, len(VALUES_X))})
+    # (2) bit-pattern families
+    for fam, nchunks in (('pow2', 16), ('dec15', 48), ('dec16', 48), ('dec17', 48), ('repr17', 48), ('sqrt_exact', 6), ('sqrt_inexact', 6), ('mantissa_walk', 8)):
+        for ch in range(nchunks):
+            for tgt in ('sio', 'path_str', 'path_obj', 'fh', 'fh_wplus', 'path_gz'):
+                out.append({'kind': 'bits', 'target': tgt, 'family': fam, 'chunk': ch, 'nchunks': nchunks})
+    # (3) long tables, all values distinct
+    for n in (10000, 100000):
+        for variant in range(4):
+            for tgt in ALL_TARGETS:
+                out.append({'kind': 'long_distinct', 'target': tgt, 'rows': n, 'variant': variant})
+    # (4) headers
+    for tgt in ALL_TARGETS:
+        # every string of length 0..L over a 6-letter alphabet, grouped by the first two letters; L = 7 for a str path,
+        # 6 for the other main targets, 5 otherwise ('<break>1 1 1' needs 6 letters)
+        maxlen = 7 if tgt == 'path_str' else 6 if tgt in ('sio', 'path_obj', 'fh', 'fh_wplus', 'path_gz') else 5
+        for a in H6:
+            for b in H6:
+                if maxlen < 7:
+                    out.append({'kind': 'strings5', 'target': tgt, 'prefix': a + b, 'maxlen': maxlen})
+                else:
+                    for c in H6:
+                        out.append({'kind': 'strings5', 'target': tgt, 'prefix': a + b + c, 'maxlen': maxlen, 'exact_prefix_too': c == H6[0]})
+        out.append({'kind': 'strings5', 'target': tgt, 'prefix': '', 'maxlen': maxlen})
+    for tgt in ALL_TARGETS:
+        for c1 in CTRL:
+            for tmpl in ('a{p}1 2 3', 'a{p}b', '{p}7 8 9\nz', '1 2 3{p}4 5 6', '#{p}#1 2 3'):
+                out.append({'kind': 'ctrl_pairs', 'target': tgt, 'c1': c1, 'template': tmpl, 'via': 'header'})
+    for tgt in ('sio', 'path_str', 'fh'):
+        for c1 in CTRL:
+            out.append({'kind': 'ctrl_pairs', 'target': tgt, 'c1': c1, 'template': 'a{p}7 8 9', 'via': 'coord_name'})
+    for tgt in ALL_TARGETS:
+        for spec in HEADER_SPECS:
+            for n in (1, 3):
+                out.append({'kind': 'header_spec', 'target': tgt, 'spec': spec, 'rows': n})
+    for tgt in ('sio', 'path_str', 'fh'):
+        for line in NUMERIC_LINES:
+            out.append({'kind': 'numeric_lines', 'target': tgt, 'line': line})
+    # (5) coordinate sets: rows 1/2/4, every target, other coordinate dtypes
+    for k in range(1, 6):
+        for dimcoord in (False, True):
+            names = _coord_names(k, dimcoord)
+            for explicit in [None, *names]:
+                for n in (1, 2, 4):
+                    for tgt in ALL_TARGETS:
+                        for layout in ('own', 'strided'):
+                            out.append({'kind': 'coords', 'n_coords': k, 'dimcoord': dimcoord, 'explicit': explicit, 'layout': layout, 'target': tgt, 'rows': n})
+                    for cdtype in ('float32', 'int64', 'int32'):
+                        for tgt in ('sio', 'path_str'):
+                            out.append({'kind': 'coords', 'n_coords': k, 'dimcoord': dimcoord, 'explicit': explicit, 'layout': 'own', 'target': tgt, 'rows': n, 'coord_dtype': cdtype})
+    # (6) histories on one path: overwrite, load twice, same size, same time stamp
+    for tgt in ('path_str', 'path_obj', 'fh', 'fh_wplus', 'path_gz', 'sio'):
+        for n in (1, 2, 3, 50):
+            for stamp in ('natural', 'same_mtime', 'older_mtime'):
+                for rounds in (2, 12):
+                    out.append({'kind': 'overwrite', 'target': tgt, 'rows': n, 'stamp': stamp, 'rounds': rounds})
+        for n_long, n_short in ((1000, 1), (3, 2), (50, 49), (2, 1)):
+            out.append({'kind': 'shrink', 'target': tgt, 'rows_long': n_long, 'rows_short': n_short})
+    # (7) refusal family on every target kind (quick: 3 targets)
+    combos = [(d,) for d in DEFECTS] + [p for p in itertools.combinations(DEFECTS, 2) if frozenset(p) not in INCOMPATIBLE]
+    for combo in combos:
+        for explicit in (False, True):
+            if explicit and ('ambiguous' in combo or 'nocoord' in combo):
+                continue
+            for n in (1, 2, 4):
+                for tgt in ALL_TARGETS:
+                    if tgt in ('sio', 'path_str', 'fh') and n == 1:
+                        continue  # already in the quick part
+                    out.append({'kind': 'refusal', 'defects': list(combo), 'explicit': explicit, 'rows': n, 'target': tgt})
+    return out
+
+
+# header specifications that would be too long to store in a case --------------------------
+HEADER_SPECS = [
+    ['long', 10000, 0], ['long', 100000, 0], ['long', 1000000, 0], ['long', 100000, 997], ['long_hash', 100000, 0],
+    ['lead_nl', 1], ['lead_nl', 2], ['lead_nl', 3], ['trail_nl', 1], ['trail_nl', 2], ['trail_nl', 3], ['both_nl', 2],
+    ['only_nl', 1], ['only_nl', 5], ['many_lines', 1000], ['many_lines', 20000], ['crlf_lines', 50], ['cr_lines', 50],
+    ['mixed_breaks', 40], ['blank_lines_numeric', 5], ['hash_every_pos', 12], ['table_lookalike', 3],
+]
+
+
+def header_from_spec(spec):
+    kind = spec[0]
+    if kind == 'long':
+        n, every = spec[1], spec[2]
+        body = ('abcdefghij 1 2 3 ' * (n // 17 + 1))[:n]
+        if every:
+            body = '\n'.join(body[i : i + every] for i in range(0, n, every))
+        return body
+    if kind == 'long_hash':
+        return '#' * spec[1]
+    if kind == 'lead_nl':
+        return '\n' * spec[1] + '1 2 3'
+    if kind == 'trail_nl':
+        return '1 2 3' + '\n' * spec[1]
+    if kind == 'both_nl':
+        return '\n' * spec[1] + '4 5 6' + '\n' * spec[1]
+    if kind == 'only_nl':
+        return '\n' * spec[1]
+    if kind == 'many_lines':
+        return '\n'.join('%d %d %d' % (i, i + 1, i + 2) for i in range(spec[1]))
+    if kind == 'crlf_lines':
+        return '\r\n'.join('%d 2 3' % i for i in range(spec[1]))
+    if kind == 'cr_lines':
+        return '\r'.join('%d 2 3' % i for i in range(spec[1]))
+    if kind == 'mixed_breaks':
+        seps = ['\n', '\r', '\r\n', '\n\r', '\n\n', '\r\r']
+        return ''.join('%d 2 3' % i + seps[i % len(seps)] for i in range(spec[1]))
+    if kind == 'blank_lines_numeric':
+        return '\n\n'.join(['1 2 3'] * spec[1])
+    if kind == 'hash_every_pos':
+        n = spec[1]
+        return '\n'.join('1 2 3'[:i] + '#' + '1 2 3'[i:] for i in range(6)) + '\n' + '\n'.join('x' * i + '#' + 'y' * (n - i) for i in range(n + 1))
+    if kind == 'table_lookalike':
+        return '\n'.join('%.18e %.18e %.18e' % (i + 0.5, -i, i * 2.0) for i in range(spec[1]))
+    raise ValueError(spec)
+
+
+def _header_classes(rec, h):
+    if h == '':
+        rec.cls('header_empty')
+    if '\n' in h:
+        rec.cls('header_multiline')
+    if '#' in h:
+        rec.cls('header_hash')
+    if any(ch in h for ch in CTRL if ch not in '\n\r\t'):
+        rec.cls('header_control_char')
+    if '\r' in h:
+        rec.cls('header_cr')
+    if len(h) >= 10000:
+        rec.cls('header_very_long')
+
+
+def _small_table(n, salt=0):
+    xs = [COORDS[(1 + i + salt) % len(COORDS)] for i in range(n)]
+    ys = [VALUES[(i + 2 * salt) % len(VALUES)] for i in range(n)]
+    es = [VARS[(3 + i + salt) % len(VARS)] for i in range(n)]
+    return xs, ys, es
+
+
+def _rt_header(rec, case, tgt, h, n, sub, *, via='header', check_text=True):
+    xs, ys, es = _small_table(n)
+    if via == 'header':
+        da = make_da(xs, ys, es)
+        ok = judge_roundtrip(rec, case, tgt, da, xs, ys, es, header_kw={'header': h}, sub=sub, check_text=check_text)
+    else:
+        da = make_da(xs, ys, es, coord_name=h)
+        ok = judge_roundtrip(rec, case, tgt, da, xs, ys, es, header_kw={}, coord_name=h, load_coord=h, sub=sub, check_text=check_text)
+    rec.states += 1
+    rec.nontrivial += 1
+    return ok
+
+
+def _run_product(case, rec, tgt):
+    n, pos = case['rows'], case['pos']
+    fx, fy, fe = _small_table(n, salt=pos)
+    for v in VALUES_X[case['v0'] : case['v1']]:
+        for e in VARS_X:
+            xs, ys, es = list(fx), list(fy), list(fe)
+            xs[pos], ys[pos], es[pos] = v, v, e  # the coordinate takes the value alphabet too
+            da = make_da(xs, ys, es)
+            judge_roundtrip(rec, case, tgt, da, xs, ys, es, header_kw={}, sub={'value': v, 'variance': e}, check_text=False)
+            rec.states += 1
+            rec.nontrivial += 1
+        _value_classes(rec, [v])
+    rec.cls('rows_1' if n == 1 else 'rows_2_3' if n < 4 else 'rows_4')
+    rec.cls('position_first' if pos == 0 else 'position_last' if pos == n - 1 else 'position_middle')
+
+
+def _decimal_family(digits, count, want_repr17=False):
+    """Deterministic numbers with exactly ``digits`` significant decimal digits, exponents sweeping the double range."""
+    out = []
+    i = 0
+    lo = 10 ** (digits - 1)
+    while len(out) < count:
+        i += 1
+        mant = lo + (i * 7919 * 10 ** (digits - 5) + i * i * 104729 + i * 999983) % (9 * lo)
+        if mant % 10 == 0:
+            mant += 1 + i % 9
+        exp = -307 + (i * 37) % 614
+        x = float('%de%d' % (mant, exp - digits + 1))
+        if x == 0.0 or x in (float('inf'),):
+            continue
+        if want_repr17 and len(repr(x).split('e')[0].replace('.', '').replace('-', '').lstrip('0')) < 17:
+            continue
+        out.append(x if i % 2 else -x)
+    return out
+
+
+def bit_family(family):
+    """(values, variances) - all finite; variances >= 0."""
+    if family == 'pow2':
+        vals = []
+        for k in range(-1074, 1024):
+            p = 2.0**k
+            vals += [p, float(np.nextafter(p, np.inf)), float(np.nextafter(p, 0.0))]
+        vals = [v for v in vals if np.isfinite(v)]
+        return [*vals, *[-v for v in vals]], [*vals, *vals]
+    if family in ('dec15', 'dec16', 'dec17'):
+        vals = _decimal_family(int(family[3:]), 120000)
+        return vals, [abs(v) for v in vals]
+    if family == 'repr17':
+        vals = _decimal_family(17, 120000, want_repr17=True)
+        return vals, [abs(v) for v in vals]
+    if family == 'sqrt_exact':
+        roots = [float(k) for k in range(1, 2001)] + [k / 1024.0 for k in range(1, 2001)] + [k * 2.0**-500 for k in range(1, 1001)] + [k * 2.0**500 for k in range(1, 1001)]
+        roots += [float(2**26 + k) for k in range(1, 1001)]  # squares need 53+ bits only if root > 2^26.5; these are still exact
+        var = [r * r for r in roots]
+        for r, v in zip(roots, var, strict=True):
+            if np.sqrt(v) != r:
+                raise RuntimeError('harness: root not exact')
+        return [(-1) ** i * r for i, r in enumerate(roots)], var
+    if family == 'sqrt_inexact':
+        base = [float(k) for k in range(2, 4000) if int(k**0.5) ** 2 != k]
+        var = base + [b * 1e-7 for b in base[:1500]] + [b * 1e250 for b in base[:1500]] + [b * 1e-300 for b in base[:1500]]
+        return [(-1) ** i * v / 3.0 for i, v in enumerate(var)], var
+    if family == 'mantissa_walk':
+        # one number per (exponent step of 16, mantissa pattern): alternating bits, single bits, all ones
+        pats = [0, 1, 2**51, 2**52 - 1, 0x5555555555555, 0xAAAAAAAAAAAAA, 0x0F0F0F0F0F0F0, 0x8000000000001] + [2**j for j in range(2, 51, 3)] + [2**52 - 1 - 2**j for j in range(0, 52, 5)]
+        vals = []
+        for ex in range(0, 2047, 4):
+            for m in pats:
+                vals.append(struct.unpack('<d', struct.pack('<Q', (ex << 52) | m))[0])
+        return [(-1) ** i * v for i, v in enumerate(vals)], vals
+    raise ValueError(family)
+
+
+_FAMILY_CACHE = {}
+
+
+def _run_bits(case, rec, tgt):
+    fam = case['family']
+    if fam not in _FAMILY_CACHE:
+        _FAMILY_CACHE.clear()
+        _FAMILY_CACHE[fam] = bit_family(fam)
+    vals, var = _FAMILY_CACHE[fam]
+    m = len(vals)
+    lo, hi = m * case['chunk'] // case['nchunks'], m * (case['chunk'] + 1) // case['nchunks']
+    vals, var = vals[lo:hi], var[lo:hi]
+    rows = 97  # table size; the last table is shorter
+    for k, start in enumerate(range(0, len(vals), rows)):
+        ys = vals[start : start + rows]
+        es = var[start : start + rows]
+        xs = list(reversed(ys))
+        da = make_da(xs, ys, es)
+        judge_roundtrip(rec, case, tgt, da, xs, ys, es, header_kw={}, sub={'family': fam, 'start': lo + start}, check_text=(k == 0))
+        rec.states += len(ys)
+        rec.nontrivial += 1
+    rec.cls('bits_' + fam)
+    _value_classes(rec, vals[:: max(1, len(vals) // 50)])
+
+
+def _run_long_distinct(case, rec, tgt):
+    n, variant = case['rows'], case['variant']
+    i = np.arange(1, n + 1, dtype=np.uint64)
+    mult = np.uint64([0x9E3779B97F4A7C15, 0xC2B2AE3D27D4EB4F, 0x165667B19E3779F9, 0xD6E8FEB86659FD93][variant])
+    with np.errstate(over='ignore'):
+        pat = i * mult
+    finite = np.uint64(0x7FF0000000000000)
+    mag = pat % finite  # finite, non-negative
+    ys = (mag | (pat & np.uint64(1 << 63))).view('float64')
+    es = ((pat >> np.uint64(3)) % finite).view('float64')
+    xs = np.sort((((pat >> np.uint64(7)) % finite) | ((pat << np.uint64(40)) & np.uint64(1 << 63))).view('float64'))
+    for a in (xs, ys, es):
+        if len(np.unique(a)) != n or not np.all(np.isfinite(a)):
+            raise RuntimeError('harness: long table not all-distinct / finite')
+    da = make_da(xs, ys, es)
+    judge_roundtrip(rec, case, tgt, da, xs, ys, es, header_kw={}, sub={})
+    rec.states += n
+    rec.nontrivial += 1
+    rec.cls('rows_long')
+    rec.cls('rows_%d' % n)
+
+
+def _run_strings5(case, rec, tgt):
+    pre = case['prefix']
+    if pre == '':
+        hs = ['', *H6]
+    else:
+        hs = [pre + ''.join(t) for k in range(0, case['maxlen'] - len(pre) + 1) for t in itertools.product(H6, repeat=k)]
+        if len(pre) == 3 and case.get('exact_prefix_too'):
+            hs.append(pre[:2])  # the two-letter strings, once
+    for h in hs:
+        _rt_header(rec, case, tgt, h, 2, {'header': h})
+        _header_classes(rec, h)
+
+
+def _run_ctrl_pairs(case, rec, tgt):
+    c1, tmpl, via = case['c1'], case['template'], case['via']
+    for c2 in ['', *CTRL]:
+        h = tmpl.format(p=c1 + c2)
+        _rt_header(rec, case, tgt, h, 1 if c2 < '\x10' else 3, {'header': h}, via=via)
+        _header_classes(rec, h)
+    rec.cls('ctrl_pair_via_' + via)
+
+
+def _run_header_spec(case, rec, tgt):
+    h = header_from_spec(case['spec'])
+    _rt_header(rec, case, tgt, h, case['rows'], {})
+    _header_classes(rec, h)
+    rec.cls('header_spec_' + case['spec'][0])
+
+
+def _run_numeric_lines(case, rec, tgt):
+    line = case['line']
+    for sep in ['\n', '\r', '\r\n', *[c for c in CTRL if c not in '\n\r']]:
+        for h in (line + sep + line, 'a' + sep + line, line + sep, sep + line, line):
+            _rt_header(rec, case, tgt, h, 2, {'header': h})
+    rec.cls('header_numeric_columns_%d' % len(line.split()))
+
+
+def _same_width_tables(n, k):
+    """Table number k of a family whose files all have the same byte size (same signs, 2-digit exponents)."""
+    xs = [1.0 + 0.125 * i + 0.001953125 * k for i in range(n)]
+    ys = [10.0 + i + 0.0625 * ((k * 7 + i) % 13) for i in range(n)]
+    es = [(2.0 + ((i + 3 * k) % 11)) ** 2 for i in range(n)]
+    return xs, ys, es
+
+
+def _run_overwrite(case, rec, tgt):
+    n, stamp, rounds = case['rows'], case['stamp'], case['rounds']
+    sizes = set()
+    t0 = None
+    for k in range(rounds):
+        xs, ys, es = _same_width_tables(n, k)
+        da = make_da(xs, ys, es)
+        sub = {'round': k}
+        rec.transitions += 1
+        try:
+            if tgt.kind == 'sio' or k == 0:
+                tgt.reset()
+            tgt.save(da)  # later rounds overwrite the existing file
+        except Exception as e:  # noqa: BLE001
+            rec.viol('save_xye', 'raises_on_representable', f'overwrite round {k}: {type(e).__name__}: {e}', **sub)
+            return
+        if tgt.kind != 'sio':
+            if tgt.handle is not None:
+                tgt.handle.flush()
+            sizes.add(os.path.getsize(tgt.path))
+            st = os.stat(tgt.path)
+            if t0 is None:
+                t0 = st.st_mtime_ns
+            if stamp == 'same_mtime':
+                os.utime(tgt.path, ns=(t0, t0))
+            elif stamp == 'older_mtime':
+                os.utime(tgt.path, ns=(t0 - (k + 1) * 10**9, t0 - (k + 1) * 10**9))
+        for rep in range(2):  # load twice; the first result is scribbled over in between
+            try:
+                out = tgt.load(dim='x', unit='one', coord_unit='one')
+            except Exception as e:  # noqa: BLE001
+                rec.viol('save_xye+load_xye', 'load_raises', f'round {k} load {rep}: {type(e).__name__}: {e}', **sub)
+                return
+            rec.transitions += 1
+            rec.evals += 1
+            got = (out.coords['x'].values.tobytes(), out.values.tobytes())
+            rec.observe(got)
+            want = (np.asarray(xs).tobytes(), np.asarray(ys).tobytes())
+            dv = np.abs(out.variances.view('int64') - np.asarray(es).view('int64')).max() if out.shape == (n,) else None
+            if out.shape != (n,) or got != want or dv > ULP_TOL:
+                rec.viol('save_xye+load_xye', 'stale_or_wrong_after_overwrite',
+                         f'round {k}, load {rep}: loaded {out.values[:3]} ..., file holds {ys[:3]} ...', load=rep, **sub)
+                return
+            rec.validated += 1
+            out.values[...] = -1.0
+            out.variances[...] = 5.0
+            out.coords['x'].values[...] = -2.0
+        rec.states += 1
+    if tgt.kind != 'sio' and not tgt.compressed and len(sizes) != 1:
+        raise RuntimeError(f'harness: overwrite family is not constant-size: {sizes}')
+    rec.nontrivial += 1
+    rec.cls('overwrite_' + stamp)
+    rec.cls('loaded_twice')
+    rec.cls('roundtrip_ok')
+
+
+def _run_shrink(case, rec, tgt):
+    """A long file replaced by a shorter one: nothing of the old content may survive."""
+    for k, n in enumerate((case['rows_long'], case['rows_short'])):
+        xs, ys, es = _same_width_tables(n, k)
+        da = make_da(xs, ys, es)
+        if k == 0:
+            tgt.reset()
+            tgt.save(da, header='old header\n9 9 9')
+            continue
+        if tgt.kind == 'sio':
+            tgt.sio.seek(0)
+            tgt.sio.truncate()
+            save_xye(tgt.sio, da)
+        else:
+            tgt.save(da)
+        rec.transitions += 2
+        try:
+            out = tgt.load(dim='x', unit='one', coord_unit='one')
+        except Exception as e:  # noqa: BLE001
+            rec.viol('save_xye+load_xye', 'load_raises', f'after overwriting a longer file: {type(e).__name__}: {e}')
+            return
+        rec.evals += 1
+        rec.observe(out.values.tobytes())
+        if out.shape != (n,) or out.values.tobytes() != np.asarray(ys).tobytes() or out.coords['x'].values.tobytes() != np.asarray(xs).tobytes():
+            rec.viol('save_xye+load_xye', 'stale_or_wrong_after_overwrite', f'{case["rows_long"]} rows overwritten by {n}: loaded shape {out.shape}, values {out.values[:3]}')
+            return
+        rec.validated += 1
+    rec.nontrivial += 1
+    rec.cls('overwrite_longer_file')
+    rec.cls('roundtrip_ok')
+
+
+THOROUGH_RUNNERS = {
+    'product': _run_product,
+    'bits': _run_bits,
+    'long_distinct': _run_long_distinct,
+    'strings5': _run_strings5,
+    'ctrl_pairs': _run_ctrl_pairs,
+    'header_spec': _run_header_spec,
+    'numeric_lines': _run_numeric_lines,
+    'overwrite': _run_overwrite,
+    'shrink': _run_shrink,
+}
